@@ -11,7 +11,7 @@ CLAIM = {
     'note': 'Trusted: clang CFG, extractor. Undecided: file-system outcomes of rename; contents of generations.',
     'technique': 'loop-shape extraction + index extent vs. fill bound (sibling rule on both sites); control dependence',
 }
-UNITS = ['runtime/logger.cpp', 'runtime/filepersist.cpp']
+UNITS = ['runtime/logger.cpp', 'runtime/filepersist.cpp', 'runtime/configuration.cpp']
 EXPLANATION = (
     "Decided for each rotation site: R29.1 the greatest index of the shift loop (its start value, indices i and i-1, step -1, stop at 0) "
     "is <= the number of generation names pushed by the fill loop (conjunction of `i < bound` tests), by construction: start is "
@@ -183,9 +183,167 @@ def run(ctx):
         ctx.check(any(pol is True and a.strip(casts=True).k == 'BinaryOperator' and a.strip(casts=True).op == '>' and
                       a.strip(casts=True).children[1].strip(casts=True).value == 0 for a, pol in atoms), 'R29.2', fq + '#gate.count', renames[0].loc,
                   'no rotation when the configured count is 0')
+    count_rules(ctx, prog)
     ctx.floor('R29.1', 2)
     ctx.floor('R29.3', 4)
     ctx.floor('R29.2', 14)
+    ctx.floor('R29.4', 2)
+    ctx.floor('R29.5', 3)
+
+
+OWNERS = (('FIX8::FileLogger', 'FIX8::FileLogger::_rotnum'), ('FIX8::FilePersister', 'FIX8::FilePersister::_rotnum'))
+
+
+def _attr_read(prog, fn, e, depth=0):
+    """(attribute name, default value, how) of an expression that reads an integer attribute of a configuration element:
+    elem->FindAttr("name", d), or a Configuration accessor whose body returns find_or_default(from, "name", def) / FindAttr(...) with def its
+    (possibly defaulted) parameter"""
+    c = e.strip(casts=True)
+    if not c.is_call or c.callee is None:
+        return None
+
+    def lit(n):
+        for x in n.walk():
+            if x.k == 'StringLiteral':
+                return x.r.get('s')
+        return None
+    nm = c.callee.get('n')
+    if nm in ('FindAttr', 'find_or_default'):
+        a = c.args
+        if len(a) >= 2 and lit(a[-2]) is not None:
+            return lit(a[-2]), a[-1], nm
+        return None
+    if depth < 2 and c.callee_qp:
+        for h in prog.fns(c.callee_qp):
+            rr = [x for x in h.all_nodes() if x.k == 'ReturnStmt' and x.children]
+            if len(rr) != 1:
+                continue
+            inner = _attr_read(prog, h, rr[0].children[0], depth + 1)
+            if inner is None:
+                continue
+            name, d, how = inner
+            ds = d.strip(casts=True)
+            if ds.k == 'DeclRefExpr' and ds.declid in h.param_ids:
+                i = h.param_ids.index(ds.declid)
+                if i < len(c.args):
+                    return name, c.args[i], how + ' via ' + h.q
+                return None
+            return name, d, how + ' via ' + h.q
+    return None
+
+
+def count_rules(ctx, prog):
+    """R29.4 the count the rotation site works with is the configured one: the only store to _rotnum is the constructor's member initialiser, and what
+    the site's own cap makes of the stored value equals min(configured, max_rotation) at every critical point of the initialiser (its constants +-1, 0, the cap,
+    the quantifier's upper end 1100, UINT_MAX).  R29.5 where the configuration builds the object, the count is read from the element's "rotation" attribute
+    with the same default as the constructor parameter it feeds."""
+    cap = None
+    for v in prog.vars('FIX8::Logger::max_rotation'):
+        if v.init is not None and v.init.strip(casts=True).value is not None:
+            cap = v.init.strip(casts=True).value
+    if cap is None:
+        d = [x for tu in prog.tus for x in tu.decls if x.get('qp') == 'FIX8::Logger::max_rotation' and x.get('cv') is not None]
+        cap = d[0]['cv'] if d else None
+    ctx.need(cap is not None, 'Logger::max_rotation value not found')
+    ctor_default = {}
+    for rec, mem in OWNERS:
+        ctors = [f for f in prog.all_functions() if f.rec == rec and f.raw.get('kind') == 'ctor' or (f.rec == rec and f.q.endswith('::' + rec.split('::')[-1]) and f.inits)]
+        ctors = [f for f in ctors if any(m is not None and m.get('qp') == mem for (m, e, it) in f.inits)]
+        ctx.need(ctors, rec + ': constructor initialising _rotnum not found')
+        writes = [(w, g) for g in prog.all_functions() for (w, m) in q.member_writes(g, mem)]
+        seen = set()
+        for c in ctors:
+            if c.loc in seen:
+                continue
+            seen.add(c.loc)
+            ctx.saw(c)
+            es = [e for (m, e, it) in c.inits if m is not None and m.get('qp') == mem]
+            e = es[0]
+            params = [pid for pid in c.param_ids if any(q.refers_to_decl(x, pid) for x in e.walk() if x.k == 'DeclRefExpr')]
+            bad = None
+            if writes:
+                bad = '_rotnum is stored again outside the constructor at %s' % writes[0][0].loc
+            elif len(params) != 1:
+                bad = 'the stored count `%s` is not a function of exactly one constructor parameter' % e.text()
+            else:
+                consts = {x.value for x in e.walk() if x.value is not None and x.k != 'DeclRefExpr' or (x.k == 'DeclRefExpr' and x.value is not None)}
+                pts = {0, 1, cap - 1, cap, cap + 1, 1100, 0xffffffff}
+                for k in consts:
+                    if isinstance(k, int) and 0 <= k <= 0xffffffff:
+                        pts |= {max(k - 1, 0), k, min(k + 1, 0xffffffff)}
+                for r in sorted(pts):
+                    v = q.eval_int(e, {params[0]: r})
+                    if v is None:
+                        raise AnalysisBroken('%s: stored count `%s` cannot be evaluated for a configured count of %d' % (c.q, e.text(), r))
+                    if min(v & 0xffffffff, cap) != min(r, cap):
+                        bad = ('a configured count of %d is stored as %d (`%s`): the rotation site then keeps %d generation(s) instead of %d'
+                               % (r, v, e.text(), min(v & 0xffffffff, cap), min(r, cap)))
+                        break
+                # the parameter default
+                pd = c.tu.decls[params[0]]
+                ctor_default[rec] = (params[0], c)
+            ctx.check(bad is None, 'R29.4', c.q + '#count-stored-as-configured', c.loc,
+                      'min(stored count, %d) == min(configured count, %d) at every critical point of `%s`; no other store to _rotnum' % (cap, cap, e.text()), bad)
+    # ---- R29.5 configuration sites
+    n = 0
+    for f in prog.all_functions():
+        if f.tu.unit != 'runtime/configuration.cpp' or not (f.q or '').startswith('FIX8::Configuration::'):
+            continue
+        for c in f.all_nodes():
+            if c.k not in ('CXXConstructExpr', 'CXXTemporaryObjectExpr') or c.callee is None:
+                continue
+            cq = c.callee.get('qp') or ''
+            owner = [rec for rec, mem in OWNERS if cq.startswith(rec + '::')] + (['FIX8::FileLogger'] if cq.startswith('FIX8::XmlFileLogger::') else [])
+            if not owner:
+                continue
+            # which argument is the count: the last parameter of these constructors (rotnum)
+            args = c.args
+            if not args:
+                continue
+            a = args[-1]
+            ctor_fns = [g for g in prog.fns(cq) if len(g.param_ids) == len(args)]
+            ctx.need(ctor_fns, 'constructor %s not found' % cq)
+            g = ctor_fns[0]
+            dflt = g.tu.decls[g.param_ids[-1]].get('defv')
+            if dflt is None:
+                dn = g.raw.get('defaults', {})
+            rd = _attr_read(prog, f, a)
+            n += 1
+            ctx.saw(f)
+            if a.strip().k == 'CXXDefaultArgExpr':
+                ctx.ok('R29.5', f.q + '#' + cq.split('::')[-1] + '.count-from-config', c.loc, 'constructed with the constructor\'s own default count')
+                continue
+            if rd is None:
+                raise AnalysisBroken('%s: count argument `%s` of %s is not a recognised attribute read' % (f.q, a.text(), cq))
+            name, d, how = rd
+            dv = d.strip(casts=True).value
+            if dv is None:
+                dv = q.eval_int(d, {})
+            want = _param_default(prog, g, len(g.param_ids) - 1)
+            if want is None or dv is None:
+                raise AnalysisBroken('%s: default of the count (attribute read `%s`, constructor %s) not evaluated' % (f.q, a.text(), cq))
+            ctx.check(name == 'rotation' and dv == want, 'R29.5', f.q + '#' + cq.split('::')[-1] + '.count-from-config', c.loc,
+                      'count = attribute "rotation" (%s), default %d = the default of %s\'s count parameter' % (how, dv, cq.split('::')[-1]),
+                      'the count is read from attribute "%s" with default %s (%s), but %s documents and defaults its count to %s: an entry without the attribute '
+                      'rotates %s generation(s) (files name.1.. that were never this object\'s are renamed)' % (name, dv, how, cq.split('::')[-1], want, dv))
+    ctx.need(n >= 3, 'fewer than 3 configuration sites constructing a FileLogger / XmlFileLogger / FilePersister found (%d)' % n)
+
+
+def _param_default(prog, g, i):
+    """value of the default argument of parameter i of function g (looked up at any call site that uses it, or in the declaration facts)"""
+    d = g.tu.decls[g.param_ids[i]]
+    if d.get('defv') is not None:
+        return d['defv']
+    for f in prog.all_functions():
+        for c in f.all_nodes():
+            if c.k in ('CXXConstructExpr', 'CXXTemporaryObjectExpr', 'CallExpr', 'CXXMemberCallExpr') and c.callee is not None and c.callee.get('qp') == g.qp and \
+                    len(c.args) == len(g.param_ids) and c.args[i].strip().k == 'CXXDefaultArgExpr':
+                v = c.args[i].strip(casts=True).value
+                if v is None:
+                    v = q.eval_int(c.args[i], {})
+                if v is not None:
+                    return v
+    return None
 
 
 def _gated_logger(f, site):
